@@ -413,14 +413,19 @@ impl<Store: StorageData> DbImpl<Store> {
         &mut self,
         f: impl FnOnce(&mut TransactionMut<Store>) -> Result<T, E>,
     ) -> Result<T, E> {
+        let id = self.storage.transaction();
         let mut transaction = TransactionMut::new(&mut *self);
         let result = f(&mut transaction);
 
-        if result.is_ok() {
-            transaction.commit()?;
+        let finished = if result.is_ok() {
+            transaction.commit()
         } else {
-            transaction.rollback()?;
-        }
+            transaction.rollback()
+        };
+        let closed = self.storage.close_transaction(id);
+
+        finished?;
+        closed?;
 
         result
     }
